@@ -1032,15 +1032,18 @@ impl ser::Serializer for ValueSerializer {
                 map: Table::new(),
                 next_key: None,
             },
+            is_datetime: false,
         })
     }
 
     fn serialize_struct(
         self,
-        _name: &'static str,
+        name: &'static str,
         len: usize,
     ) -> Result<Self::SerializeStruct, crate::ser::Error> {
-        self.serialize_map(Some(len))
+        let mut ser = self.serialize_map(Some(len))?;
+        ser.is_datetime = name == datetime::NAME;
+        Ok(ser)
     }
 
     fn serialize_struct_variant(
@@ -1362,6 +1365,7 @@ impl ser::SerializeStruct for SerializeMap {
 
 struct ValueSerializeMap {
     ser: SerializeMap,
+    is_datetime: bool,
 }
 
 impl ser::SerializeMap for ValueSerializeMap {
@@ -1400,6 +1404,14 @@ impl ser::SerializeStruct for ValueSerializeMap {
     }
 
     fn end(self) -> Result<Value, crate::ser::Error> {
+        if self.is_datetime {
+            if let Some(Value::String(s)) = self.ser.map.get(datetime::FIELD) {
+                return s
+                    .parse::<Datetime>()
+                    .map(Value::Datetime)
+                    .map_err(ser::Error::custom);
+            }
+        }
         ser::SerializeMap::end(self)
     }
 }
@@ -1479,6 +1491,7 @@ impl ValueSerializeVariant<ValueSerializeMap> {
                     map: Table::with_capacity(len),
                     next_key: None,
                 },
+                is_datetime: false,
             },
         }
     }
